@@ -527,3 +527,46 @@ func refModifyBid(pre *Snap, o Op) Expect {
 	}
 	return Expect{Accept: true, Charge: charge}
 }
+
+// PayBounds returns the bounds of what a bidder pays for receiving amount a at the uniform price
+// pM, given its bids: price*quantity <= payment < price*quantity + (matched bids). When the
+// bidder received its whole uncapped demand at pM the payment is exactly the sum of the per-bid
+// ceilings. eligible is the number of its bids priced >= pM with a positive quantity at pM and
+// asked the sum of those quantities.
+func PayBounds(bids []*BidRec, bidder, payDenom string, pM, a *big.Int) (lo, hi *big.Int, exact bool, eligible int, asked *big.Int) {
+	asked = new(big.Int)
+	exactPay := new(big.Int)
+	for _, b := range bids {
+		if b.Bidder != bidder || b.PriceM.Cmp(pM) < 0 {
+			continue
+		}
+		q := b.QtyAt(payDenom, pM)
+		if q.Sign() > 0 {
+			eligible++
+			asked.Add(asked, q)
+			exactPay.Add(exactPay, MulCeil(q, pM))
+		}
+	}
+	if a.Cmp(asked) == 0 {
+		return exactPay, exactPay, true, eligible, asked
+	}
+	pa := bmul(a, pM)
+	lo = ceilDiv(pa, E18)
+	hi = bsub(ceilDiv(badd(pa, bmul(bi(int64(eligible)), E18)), E18), bigOne)
+	if hi.Cmp(lo) < 0 {
+		hi = lo
+	}
+	return lo, hi, false, eligible, asked
+}
+
+// UsedPrice is the uniform price a settled batch auction used: the published matched price when
+// it is positive, otherwise the reference clearing price (nil when nothing was sold).
+func UsedPrice(post *Auc, ref *MatchRef) *big.Int {
+	if post != nil && post.MatchedPriceM != nil && post.MatchedPriceM.Sign() > 0 {
+		return post.MatchedPriceM
+	}
+	if ref != nil && ref.Sold {
+		return ref.PStarM
+	}
+	return nil
+}
